@@ -5,8 +5,8 @@ OUT=/verif/seeded/RESULTS.txt
 echo "# quick check of the seeded property against each seeded change (vseedrun_wt.sh), $(date -u +%FT%TZ), /verif at $(git -C /verif rev-parse --short HEAD)" > $OUT
 for d in /verif/seeded/C*-*; do
   id=$(basename $d); prop=${id%%-*}
-  r=$(TAILN=3 /verif/vseedrun_wt.sh $d/patch.diff $prop 2>&1)
-  if echo "$r" | grep -q "VIOLATION"; then v=DETECTED; else v=MISSED; fi
+  r=$(TAILN=12 /verif/vseedrun_wt.sh $d/patch.diff $prop 2>&1)
+  if echo "$r" | grep -qE "VIOLATION|failing class"; then v=DETECTED; else v=MISSED; fi
   echo "$id $v :: $(echo "$r" | grep -m1 'failing class' | sed 's/^ *//')" >> $OUT
 done
 cat $OUT
